@@ -48,8 +48,8 @@ example : (([([1], [7]), ([2], [8])] : List (Bytes × Bytes)).map (·.1)).Nodup 
 
 /-- IntermediateRoot iterates `journal.dirties`, `stateObjectsPending`, `validatorObjectsDirty` and
 `stakingRecordsDirty` in Go map order.  For every permutation of all four, the account leaves, the validator
-record leaves and the staking record leaves written are the same.  (The index / statistics singletons are covered
-by `flush_order_independent_statement` below.) -/
+record leaves and the staking record leaves written are the same.  (Index / statistics singletons and the roots:
+`flush_order_independent_full` below.) -/
 theorem flush_order_independent (P : Prim) (del : Bool) (s : St) (j p d r : List Bytes)
     (hj : j.Perm s.acctJ) (hp : p.Perm s.acctP) (hd : d.Perm s.valD) (hr : r.Perm s.recD) :
     let s' := { s with acctJ := j, acctP := p, valD := d, recD := r }
@@ -68,13 +68,30 @@ theorem flush_order_independent (P : Prim) (del : Bool) (s : St) (j p d r : List
     rw [iroot_recs_get, iroot_recs_get]
     simp only [s', hr.mem_iff]
 
-/-- full statement (all leaves of all three tries, i.e. including the saved index and statistics).  Not proved: the
-statistics are decremented with a *clamped* subtraction when a validator is deleted at the flush, which commutes
-only while no clamp fires (deleted validators have zero stake and token in every generated history). -/
-def flush_order_independent_statement : Prop :=
-  ∀ (P : Prim) (del : Bool) (s : St) (j p d r : List Bytes), j.Perm s.acctJ → p.Perm s.acctP → d.Perm s.valD → r.Perm s.recD →
-    (∀ a v, a ∈ s.valD → aget s.vals a = some v → wd del v = true → v.stake = 0 ∧ v.token = 0) →
-    TEq (iroot P del { s with acctJ := j, acctP := p, valD := d, recD := r }).t (iroot P del s).t
+/-- **All leaves, hence all three roots.**  Under the explicit condition that no clamp fires at this flush (`NoClamp`:
+every validator the flush deletes has zero stake and zero token — what `IsInvalid` means below 2^64; C08 proves
+`clamp_never_fires` of its own model under its invariant) the saved index, statistics, withdraw queue and pending
+relationships are byte-identical for every permutation of the four dirty sets; with 20-byte validator keys the three
+stores hold the same leaves and the three roots are equal. -/
+theorem flush_order_independent_full (P : Prim) (del : Bool) (s : St) (j p d r : List Bytes)
+    (hj : j.Perm s.acctJ) (hp : p.Perm s.acctP) (hd : d.Perm s.valD) (hr : r.Perm s.recD) (hz : NoClamp del s)
+    (hk : Addr20 (iroot P del { s with acctJ := j, acctP := p, valD := d, recD := r }).t.val.vals)
+    (hk' : Addr20 (iroot P del s).t.val.vals) :
+    TEq (iroot P del { s with acctJ := j, acctP := p, valD := d, recD := r }).t (iroot P del s).t ∧
+    roots P (iroot P del { s with acctJ := j, acctP := p, valD := d, recD := r }) = roots P (iroot P del s) := by
+  obtain ⟨h1, h2, h3⟩ := flush_order_independent P del s j p d r hj hp hd hr
+  obtain ⟨s1, s2, s3, s4⟩ := iroot_singles_perm P del s j p d r hd hz
+  have ht : TEq (iroot P del { s with acctJ := j, acctP := p, valD := d, recD := r }).t (iroot P del s).t :=
+    ⟨h1, CEq_valContent _ _ hk hk' h2 s1 s2 s3, CEq_stkContent _ _ h3 s4⟩
+  exact ⟨ht, roots_content_only P _ _ ht⟩
+
+/-- test (non-vacuity): a state whose flush deletes a zero-stake validator satisfies `NoClamp` -/
+example : NoClamp true { vals := [([7], { token := 0, stake := 0 })], valD := [[7]] } := by
+  intro a v _ hv _
+  simp only [aget] at hv
+  split at hv
+  · simp at hv; subst hv; exact ⟨rfl, rfl⟩
+  · simp at hv
 
 /-! ## 3. the flush depends on the logical state only (regrouping of writes and flush points) -/
 
